@@ -202,6 +202,14 @@ Definition spec_case (s : schema) (table : string) (o : op) (selects omits : lis
       spec_update s table ShMap true selects omits p
                   (firstn 1 (map fst (filter (in_rows model_key where_ids) stored))) cells
   | OFoiAssign => match cells with [] => true | _ => false end
+  | OSaveSlice =>          (* each element: a stored key is updated like an UpdateAll upsert, a fresh one inserted *)
+      let ids := map fst stored in
+      let coll := filter (fun q : payload => mem_z (fst q) ids) ps in
+      let fresh := filter (fun q : payload => negb (mem_z (fst q) ids)) ps in
+      forallb (fun q => spec_conflict s table OUpsertAll selects omits q
+                                      (filter (fun x => c_row x =? fst q) cells)) coll
+      && spec_new_rows s table false selects omits fresh (filter (fun x => is_new (c_row x)) cells)
+      && forallb (fun x => is_new (c_row x) || existsb (fun q : payload => fst q =? c_row x) coll) cells
   | OUpsertAll | OUpsertNothing | OUpsertCols _ =>
       if all_new cells && negb (match cells with [] => true | _ => false end)
       then spec_new_rows s table false selects omits [p] cells
